@@ -62,16 +62,18 @@ const (
 	SecRangeGrow       // gs = H.NewGrow(r); forRange gk := gs.Items { gs.Push(); H.Y }   a loop over a slice that its own body keeps growing
 	SecThreeSetLoc     // l3 = H.Obj3(r); l3.P.X = 5; H.Y           a three-level store whose root is a rule local (may fail)
 	SecOptFn           // H.OptV(r, ofn(r))                        a function value only some requests inject
+	SecForCall         // for fj = 0; fj < 2; fj += 1 { H.F(r,p) }    a failing call inside the body of a for loop
+	SecStrayBreak      // H.B(r,p); break                             a break outside any loop (always fails)
 	SecOptName         // H.OptSet(r); ov = r+300                  a plain name that some calls inject (then it is shared) and others do not (then it is a local)
 	numSecKinds
 )
 
-var secNames = [...]string{"Y", "Call", "AsgCall", "AsgKind", "Div", "Idx", "Nil", "Unknown", "Arg", "IfKind", "IfIdx", "IfNil", "Elif", "ForKind", "ForStep", "Unb", "UnbCont", "Conc", "Local", "Reader", "Stop", "ShW", "ShR", "Upd", "Echo", "Opt", "IfCall", "ForRange", "MapIdx", "SetKind", "SetNil", "RangeKey", "ThreeNil", "IfThreeNil", "ArgCount", "NilMapSet", "FuncCall", "IfFunc", "ThreeSet", "LocObj", "LocObjReader", "LocAlias", "FnArgKind", "FnArgCount", "LocStruct", "ElifCall", "ForAcc", "ApiSet", "RangeGrow", "ThreeSetLoc", "OptFn", "OptName"}
+var secNames = [...]string{"Y", "Call", "AsgCall", "AsgKind", "Div", "Idx", "Nil", "Unknown", "Arg", "IfKind", "IfIdx", "IfNil", "Elif", "ForKind", "ForStep", "Unb", "UnbCont", "Conc", "Local", "Reader", "Stop", "ShW", "ShR", "Upd", "Echo", "Opt", "IfCall", "ForRange", "MapIdx", "SetKind", "SetNil", "RangeKey", "ThreeNil", "IfThreeNil", "ArgCount", "NilMapSet", "FuncCall", "IfFunc", "ThreeSet", "LocObj", "LocObjReader", "LocAlias", "FnArgKind", "FnArgCount", "LocStruct", "ElifCall", "ForAcc", "ApiSet", "RangeGrow", "ThreeSetLoc", "OptFn", "ForCall", "StrayBreak", "OptName"}
 
 // FaultCapable reports whether a section hosts a fault point.
 func FaultCapable(k int) bool {
 	switch k {
-	case SecCall, SecAsgCall, SecAsgKind, SecDiv, SecIdx, SecNil, SecUnknown, SecArg, SecIfKind, SecIfIdx, SecIfNil, SecElif, SecForKind, SecForStep, SecUnb, SecUnbCont, SecConc, SecIfCall, SecForRange, SecMapIdx, SecSetKind, SecSetNil, SecThreeNil, SecIfThreeNil, SecArgCount, SecNilMapSet, SecFuncCall, SecIfFunc, SecThreeSet, SecFnArgKind, SecFnArgCount, SecElifCall:
+	case SecCall, SecAsgCall, SecAsgKind, SecDiv, SecIdx, SecNil, SecUnknown, SecArg, SecIfKind, SecIfIdx, SecIfNil, SecElif, SecForKind, SecForStep, SecUnb, SecUnbCont, SecConc, SecIfCall, SecForRange, SecMapIdx, SecSetKind, SecSetNil, SecThreeNil, SecIfThreeNil, SecArgCount, SecNilMapSet, SecFuncCall, SecIfFunc, SecThreeSet, SecFnArgKind, SecFnArgCount, SecElifCall, SecForCall:
 		return true
 	}
 	return false
@@ -80,7 +82,7 @@ func FaultCapable(k int) bool {
 // MarkerFault reports whether the fault of a section is a panic of an injected
 // method carrying a unique marker string.
 func MarkerFault(k int) bool {
-	return k == SecCall || k == SecAsgCall || k == SecIfCall || k == SecFuncCall || k == SecIfFunc || k == SecElifCall
+	return k == SecCall || k == SecAsgCall || k == SecIfCall || k == SecFuncCall || k == SecIfFunc || k == SecElifCall || k == SecForCall
 }
 
 // Return shapes of a rule.
@@ -432,6 +434,10 @@ func (r *RuleDef) Render() string {
 		case SecRangeGrow:
 			fmt.Fprintf(&b, "gs%d = H.NewGrow(%d)\nforRange gk%d := gs%d.Items {\ngs%d.Push()\nH.Y(%d,%d)\n}\n", p, id, p, p, p, id, yk)
 			yk++
+		case SecForCall:
+			fmt.Fprintf(&b, "for fj%d = 0; fj%d < 2; fj%d += 1 {\nH.F(%d,%d)\n}\n", p, p, p, id, p)
+		case SecStrayBreak:
+			fmt.Fprintf(&b, "H.B(%d,%d)\nbreak\n", id, p)
 		case SecFnArgKind:
 			fmt.Fprintf(&b, "H.B(%d,%d)\nfa(%d, VS%d)\n", id, p, id, id)
 		case SecFnArgCount:
